@@ -148,9 +148,10 @@ Definition v_and (a b : verdict) : verdict :=
 Definition v_all (v : verdict) : bool := v_rank v && v_lockset v && v_block v && v_handler v && v_balanced v && v_regular v.
 
 (** [assume_capacity]: sends to the request queue never block *)
-(** external calls that read guarded state through aliases and must therefore run under the owning lock:
-    the JSON serialisation of the cache in Dump *)
-Definition locked_externals : list (string * lockid) := [("json.MarshalIndent", LM)].
+(** external calls that must run under a lock: the JSON serialisation of the cache in Dump (it reads guarded
+    state through aliases), and the manager's calls of the client's Watch (a subscription change must be
+    atomic with the cache / notifier change that causes it: lookup miss, eviction) *)
+Definition locked_externals : list (string * lockid) := [("json.MarshalIndent", LM); ("m.client.Watch", LM)].
 Definition ext_locked (h : held) (n : string) : bool :=
   match aget n locked_externals with Some l => holds h l | None => true end.
 
